@@ -220,9 +220,12 @@ def run_scripts(ctx, scripts, tag):
     rest = [s for s in scripts if s.get("kind") != "pool"]
     write_ndjson(sp, rest)
     p = ctx.run_vh(["conn", "-scripts", sp, "-out", tp, "-par", "24"], timeout=2400)
-    if p.returncode != 0:
+    if p.returncode != 0 and ("panic:" in p.stderr or "fatal error:" in p.stderr):
+        traces = isolate(ctx, rest, tag, "conn", "a Conn")
+    elif p.returncode != 0:
         raise Inconclusive("vh conn failed: " + p.stderr[-2000:])
-    traces = split_traces(read_ndjson(tp))
+    else:
+        traces = split_traces(read_ndjson(tp))
     if pool:
         sp2, tp2 = sp + ".pool", tp + ".pool"
         write_ndjson(sp2, pool)
@@ -230,10 +233,43 @@ def run_scripts(ctx, scripts, tag):
         if p2.returncode != 0:
             raise Inconclusive("vh conn (pool scenarios) failed: " + p2.stderr[-2000:])
         traces += split_traces(read_ndjson(tp2))
-        scripts[:] = rest + pool
+    scripts[:] = rest + pool
     if len(traces) != len(scripts):
         raise Inconclusive("driver produced %d traces for %d scripts" % (len(traces), len(scripts)))
     return traces
+
+
+def isolate(ctx, scripts, tag, sub, what):
+    """Run every script in its own process; a script whose process dies with a panic of the library is a violation."""
+    from concurrent.futures import ThreadPoolExecutor
+
+    def one(k):
+        sp = os.path.join(ctx.work, "iso-%s-%d.ndjson" % (tag, k))
+        tp = os.path.join(ctx.work, "iso-%s-%d.t" % (tag, k))
+        write_ndjson(sp, [scripts[k]])
+        p = ctx.run_vh([sub, "-scripts", sp, "-out", tp, "-par", "1"], timeout=400)
+        if p.returncode != 0:
+            return k, None, p.stderr
+        return k, read_ndjson(tp), ""
+
+    with ThreadPoolExecutor(max_workers=16) as ex:
+        res = list(ex.map(one, range(len(scripts))))
+    keep_s, keep_t, died = [], [], 0
+    for k, evs, err in res:
+        if evs is not None:
+            keep_s.append(scripts[k])
+            keep_t.append(evs)
+            continue
+        if "panic:" not in err and "fatal error:" not in err:
+            raise Inconclusive("vh %s failed on %s: %s" % (sub, scripts[k]["id"], err[-1500:]))
+        died += 1
+        first = [x for x in err.splitlines() if x.startswith("panic:") or x.startswith("fatal error:")][:1]
+        if died <= 20:
+            rep = ctx.save_replay("%s-panic" % scripts[k]["id"], [("script.json", json.dumps(scripts[k])), ("stderr.txt", err[-8000:])])
+            ctx.violation("the library panicked while %s ran scenario %s: %s" % (what, scripts[k]["id"], first[0] if first else "panic"), rep,
+                          key="panic scenario=%s %s" % (scripts[k]["id"], first[0] if first else ""))
+    scripts[:] = keep_s
+    return split_traces([e for t in keep_t for e in t])
 
 
 def tid_of(out):
